@@ -144,6 +144,7 @@ func runAction(t *T, action func(*T)) (invalid bool, skipped bool) {
 			if _, ok := r.(invalidData); ok {
 				invalid = true
 				skipped = t.draws == draws
+				t.failOnError() // a non-fatal failure signalled before the skip stops Repeat, too
 			} else {
 				panic(r)
 			}
